@@ -184,6 +184,10 @@ fn lender_exec(p: P) -> ExecEnd {
                     break;
                 }
             }
+            if sim::has_violation() {
+                sim::drop_or_leak((loan.take(), mine.take()));
+                return;
+            }
             if let Some(l) = loan.take() {
                 live.fetch_sub(1, Ordering::SeqCst);
                 sim::log_event(t, "loan drop (end)");
@@ -308,6 +312,10 @@ fn state_exec(p: P, keys: &Keys) -> ExecEnd {
                     break;
                 }
             }
+            if sim::has_violation() {
+                sim::drop_or_leak((ctx, client, admin));
+                return;
+            }
             for (c, x) in ctx.iter_mut().enumerate() {
                 if let Some(x) = x.take() {
                     sh.lock().expect("sh").0[c].live -= 1;
@@ -319,7 +327,7 @@ fn state_exec(p: P, keys: &Keys) -> ExecEnd {
     for h in hs {
         let _ = h.join();
     }
-    drop(state);
+    sim::drop_or_leak(state);
     // every handle is gone now: each channel's data must have been freed exactly once
     let frees = sim::with_ctx(|c| c.counters.get("lender.drop.free").copied().unwrap_or(0)).unwrap_or(0);
     if !sim::has_violation() && frees != nchan as u64 {
@@ -363,13 +371,6 @@ impl Check for C44 {
     fn workload(&self, p: &Value, keys: Keys) -> Workload {
         let p = parse(p);
         Arc::new(move || if p.state_family { state_exec(p, &keys) } else { lender_exec(p) })
-    }
-
-    fn budget(&self, tier: vcommon::Tier) -> (u64, usize) {
-        match tier {
-            vcommon::Tier::Quick => (640, 60),
-            vcommon::Tier::Thorough => (6400, 60),
-        }
     }
 
     fn rule(&self) -> String {
